@@ -22,7 +22,8 @@ PQ_ATTR = {"IOU": "pq", "DSC": "pq_dsc", "clDSC": "pq_cldsc"}
 def unit_calculators(ctx):
     eng = ctx.engine()
     tp, npred, nref = z3.Ints("tp npred nref")
-    vals = {m: z3.Function(f"vals_{m}", I, R) for m in ALL_METRICS}
+    vals_arr = {m: z3.Const(f"vals_{m}", z3.ArraySort(I, R)) for m in ALL_METRICS}
+    vals = {m: (lambda i, m=m: z3.Select(vals_arr[m], i)) for m in ALL_METRICS}
 
     def mk(e):
         e.assume(wrap(z3.And(tp >= 0, tp <= npred, tp <= nref)))
@@ -57,7 +58,9 @@ def unit_calculators(ctx):
         T = lambda x: to_term(x, "real")
         isnum = lambda x: isinstance(x, (Sym, int, float)) and not (isinstance(x, float) and x != x)
         pos = z3.is_false(z3.simplify(z3.And(*p.pc, tp == 0))) or not eng_feasible(p.pc, tp == 0)
-        info = {"prefer": ["(<= tp 3)", "(<= npred 4)", "(<= nref 4)"]}
+        sample = {"DSC": ("0.2", "0.6"), "IOU": ("0.1", "0.3"), "ASSD": ("1.0", "4.0"), "RVD": ("(- 0.5)", "0.25"), "clDSC": ("0.7", "0.9")}
+        generic = ["(= tp 2)", "(<= npred 4)", "(<= nref 4)"] + [f"(= (select vals_{m_} {k_}) {sample[m_][k_]})" for m_ in ALL_METRICS for k_ in (0, 1)]
+        info = {"prefer": [generic, ["(<= tp 3)", "(<= npred 4)", "(<= nref 4)"]]}
         nm = f"panoptica_result.calculators[{'tp>0' if pos else 'tp=0'}]"
         g = [to_term(v["tp"]) == tp, to_term(v["fp"]) == npred - tp, to_term(v["fn"]) == nref - tp,
              to_term(v["tp"]) + to_term(v["fp"]) == npred, to_term(v["tp"]) + to_term(v["fn"]) == nref]
@@ -73,12 +76,16 @@ def unit_calculators(ctx):
             for m in ALL_METRICS:
                 arr, n = seq_array(eng, p.state["lists"][metric(eng, m)])
                 sqv, sdv = v[SQ_ATTR[m]], v[SQ_ATTR[m] + "_std"]
-                gm = [T(sqv) == AGG["average"](arr, n), T(sdv) == AGG["pstd"](arr, n)] if isinstance(sqv, Sym) and isinstance(sdv, Sym) else [z3.BoolVal(False)]
+                both = isinstance(sqv, Sym) and isinstance(sdv, Sym)
+                ctx.oblige(f"{nm}/post({SQ_ATTR[m]}=mean of the {m} list)#p{pi}", p.pc, T(sqv) == AGG["average"](arr, n) if both else z3.BoolVal(False),
+                           func=fn, replay="c02.result", info=dict(info, metric=m))
+                ctx.oblige(f"{nm}/post({SQ_ATTR[m]}_std=population std of the {m} list)#p{pi}", p.pc, T(sdv) == AGG["pstd"](arr, n) if both else z3.BoolVal(False),
+                           func=fn, replay="c02.result", info=dict(info, metric=m))
                 if m in PQ_ATTR:
                     pv = v[PQ_ATTR[m]]
-                    gm.append(T(pv) == T(sqv) * T(v["rq"]) if isinstance(pv, Sym) and isinstance(sqv, Sym) and isnum(v["rq"]) else z3.BoolVal(False))
-                ctx.oblige(f"{nm}/post({SQ_ATTR[m]}=mean, {SQ_ATTR[m]}_std=population std of the {m} list{', ' + PQ_ATTR[m] + '=sq*rq' if m in PQ_ATTR else ''})#p{pi}",
-                           p.pc, z3.And(*gm), func=fn, replay="c02.result", info=dict(info, metric=m))
+                    okp = isinstance(pv, Sym) and isinstance(sqv, Sym) and isnum(v["rq"])
+                    ctx.oblige(f"{nm}/post({PQ_ATTR[m]}={SQ_ATTR[m]}*rq)#p{pi}", p.pc, T(pv) == T(sqv) * T(v["rq"]) if okp else z3.BoolVal(False),
+                               func=fn, replay="c02.result", info=dict(info, metric=m))
         else:
             rqv = v["rq"]
             if isinstance(rqv, float) and rqv != rqv:
